@@ -62,6 +62,9 @@ type marshalError struct {
 	error
 }
 
+// Unwrap gives errors.Is and errors.As access to the codec's own error.
+func (e marshalError) Unwrap() error { return e.error }
+
 // readSizePreface reads a 32-bit size from the given reader. If the value is
 // negative, it indicates the last message in the stream. Messages can have zero
 // size, but the last message in the stream should never have zero size (so its
